@@ -1976,3 +1976,276 @@ mod tests {
         Ok(())
     }
 }
+
+/// Verification hooks: access to private kernels, matchers and automata tables
+#[cfg(feature = "verif-hooks")]
+pub mod verif_hooks {
+    use super::*;
+    use crate::automata::DFAStateInfo;
+    use std::collections::BTreeSet;
+
+    pub type Buffer = MatcherBuffer;
+
+    /// Incremental tokeniser (the private `MatcherDecoder`) over a caller supplied DFA
+    pub struct Tokenizer<T>(MatcherDecoder<T>);
+
+    impl<T: Clone + Ord> Tokenizer<T> {
+        /// `table[state * lang_size + symbol]` is the next state, `accept[state]` is the item
+        /// produced in the state; `is_terminal` is derived the same way `NFA::compile` does.
+        pub fn from_raw(
+            lang_size: usize,
+            table: Vec<Option<usize>>,
+            accept: Vec<Option<T>>,
+        ) -> Self {
+            let mut infos = Vec::with_capacity(accept.len());
+            for (index, item) in accept.into_iter().enumerate() {
+                let mut tags = BTreeSet::new();
+                let is_accepting = item.is_some();
+                if let Some(item) = item {
+                    tags.insert(MatcherTag::Item(item));
+                }
+                let mut is_terminal = true;
+                for symbol in 0..lang_size {
+                    if table[index * lang_size + symbol].is_some() {
+                        is_terminal = false;
+                    }
+                }
+                infos.push(DFAStateInfo {
+                    is_accepting,
+                    is_terminal,
+                    tags,
+                });
+            }
+            let mut states = Vec::with_capacity(table.len());
+            for state in table {
+                states.push(state.map(crate::automata::verif_dfa_state));
+            }
+            let automata = DFA::verif_from_parts(
+                crate::automata::verif_dfa_state(0),
+                lang_size,
+                states.into_boxed_slice(),
+                infos.into_boxed_slice(),
+            );
+            let inner = MatcherAutomataInner {
+                automata,
+                matchers: Vec::new(),
+            };
+            Tokenizer(MatcherDecoder::new(MatcherAutomata {
+                inner: Arc::new(inner),
+            }))
+        }
+
+        /// Overwrite complete tokeniser state
+        pub fn set_state(
+            &mut self,
+            state: usize,
+            buffer: &[u8],
+            rescheduled: &[u8],
+            candidate: Option<(Result<T, &[u8]>, usize)>,
+        ) {
+            self.0.automata_state = crate::automata::verif_dfa_state(state);
+            self.0.buffer = SmallVec::from_slice(buffer);
+            self.0.rescheduled = SmallVec::from_slice(rescheduled);
+            self.0.item_candidate =
+                candidate.map(|(item, size)| (item.map_err(SmallVec::from_slice), size));
+        }
+
+        pub fn state(&self) -> usize {
+            DFA::<MatcherTag<T>>::verif_index(self.0.automata_state)
+        }
+
+        pub fn buffer(&self) -> &[u8] {
+            &self.0.buffer
+        }
+
+        pub fn rescheduled(&self) -> &[u8] {
+            &self.0.rescheduled
+        }
+
+        pub fn candidate(&self) -> Option<(Result<&T, &[u8]>, usize)> {
+            self.0
+                .item_candidate
+                .as_ref()
+                .map(|(item, size)| (item.as_ref().map_err(|e| e.as_slice()), *size))
+        }
+
+        /// Single `decode_byte` step
+        pub fn step(&mut self, byte: u8) -> Option<Result<T, Buffer>> {
+            self.0.decode_byte(byte)
+        }
+
+        /// `Decoder::decode` over a slice
+        pub fn decode_slice(&mut self, buf: &mut &[u8]) -> Option<Result<T, Buffer>> {
+            self.0.decode(buf).ok().flatten()
+        }
+    }
+
+    /// Replacement for `utf8_nfa` used when `NFA::compile` is replaced by a table
+    #[allow(dead_code)]
+    pub(super) fn utf8_nfa_stub<T: Clone>(_mode: UTF8Mode) -> NFA<T> {
+        NFA::verif_hollow()
+    }
+
+    pub fn number_decode(data: &[u8]) -> Option<usize> {
+        super::number_decode(data)
+    }
+
+    pub fn numbers_decode(data: &[u8], sep: u8) -> impl Iterator<Item = usize> + '_ {
+        super::numbers_decode(data, sep)
+    }
+
+    pub fn utf8_decode(data: &[u8]) -> char {
+        super::utf8_decode(data)
+    }
+
+    pub fn sgr_face(data: &[u8]) -> FaceModify {
+        super::sgr_face(data)
+    }
+
+    pub fn sgr_color<'a>(cmds: impl Iterator<Item = &'a [u8]>) -> Option<RGBA> {
+        super::sgr_color(cmds)
+    }
+
+    pub fn parse_color(color: &str) -> Option<RGBA> {
+        super::parse_color(color)
+    }
+
+    pub fn keyboard_decode_key(code: usize) -> Option<KeyName> {
+        super::keyboard_decode_key(code)
+    }
+
+    /// Number of matchers in the terminal event automata
+    pub const EVENT_MATCHERS: usize = 14;
+
+    /// Payload decoder of the event matcher with provided index, same order as
+    /// in the terminal event automata.
+    pub fn event_matcher_decode(index: usize, data: &[u8]) -> Option<TerminalEvent> {
+        match index {
+            0 => BasicEventsMatcher.decode(data),
+            1 => CursorPositionMatcher.decode(data),
+            2 => DecModeMatcher.decode(data),
+            3 => DeviceAttrsMatcher.decode(data),
+            4 => GraphicRenditionMatcher
+                .decode(data)
+                .map(|face| TerminalEvent::Command(TerminalCommand::FaceModify(face))),
+            5 => KittyImageMatcher.decode(data),
+            6 => KittyKeyboardMatcher.decode(data),
+            7 => MouseEventMatcher.decode(data),
+            8 => OSControlMatcher.decode(data),
+            9 => ReportSettingMatcher.decode(data),
+            10 => TermCapMatcher.decode(data),
+            11 => TermSizeMatcher.decode(data),
+            12 => UTF8Matcher::new(UTF8Mode::Printable)
+                .decode(data)
+                .map(|c| TerminalEvent::Key(KeyName::Char(c).into())),
+            13 => BracketedPasteMatcher.decode(data),
+            _ => None,
+        }
+    }
+
+    /// Debug name of the event matcher used by `event_matcher_decode`
+    pub fn event_matcher_name(index: usize) -> String {
+        fn mapped<M: Matcher>(matcher: M) -> String
+        where
+            M::Item: 'static,
+        {
+            format!("{:?}", matcher.map(|item| item))
+        }
+        match index {
+            0 => format!("{:?}", BasicEventsMatcher),
+            1 => format!("{:?}", CursorPositionMatcher),
+            2 => format!("{:?}", DecModeMatcher),
+            3 => format!("{:?}", DeviceAttrsMatcher),
+            4 => mapped(GraphicRenditionMatcher),
+            5 => format!("{:?}", KittyImageMatcher),
+            6 => format!("{:?}", KittyKeyboardMatcher),
+            7 => format!("{:?}", MouseEventMatcher),
+            8 => format!("{:?}", OSControlMatcher),
+            9 => format!("{:?}", ReportSettingMatcher),
+            10 => format!("{:?}", TermCapMatcher),
+            11 => format!("{:?}", TermSizeMatcher),
+            12 => mapped(UTF8Matcher::new(UTF8Mode::Printable)),
+            13 => format!("{:?}", BracketedPasteMatcher),
+            _ => String::new(),
+        }
+    }
+
+    /// Payload decoder of the command matcher with provided index
+    pub fn command_matcher_decode(index: usize, data: &[u8]) -> Option<TerminalCommand> {
+        match index {
+            0 => GraphicRenditionMatcher
+                .decode(data)
+                .map(TerminalCommand::FaceModify),
+            1 => UTF8Matcher::new(UTF8Mode::NotEscape)
+                .decode(data)
+                .map(TerminalCommand::Char),
+            _ => None,
+        }
+    }
+
+    /// Dump of a compiled automata
+    pub struct Dump {
+        pub start: usize,
+        pub lang_size: usize,
+        /// dense transition table `table[state * lang_size + symbol]`
+        pub table: Vec<Option<usize>>,
+        /// (is_accepting, is_terminal, tags in set order) per state
+        pub infos: Vec<(bool, bool, Vec<DumpTag>)>,
+        /// debug names of the registered matchers
+        pub matchers: Vec<String>,
+    }
+
+    #[derive(Debug, Clone, PartialEq, Eq)]
+    pub enum DumpTag {
+        /// automata produces item by itself (debug representation)
+        Item(String),
+        /// index of the payload decoder
+        Matcher(usize),
+    }
+
+    fn dump<T: fmt::Debug>(automata: &MatcherAutomataInner<T>) -> Dump {
+        let (start, lang_size, table, _) = automata.automata.verif_raw();
+        let infos = (0..automata.automata.size())
+            .map(|index| {
+                let info = automata
+                    .automata
+                    .info(crate::automata::verif_dfa_state(index));
+                let tags = info
+                    .tags
+                    .iter()
+                    .map(|tag| match tag {
+                        MatcherTag::Item(item) => DumpTag::Item(format!("{:?}", item)),
+                        MatcherTag::Matcher(index) => DumpTag::Matcher(*index),
+                    })
+                    .collect();
+                (info.is_accepting, info.is_terminal, tags)
+            })
+            .collect();
+        Dump {
+            start,
+            lang_size,
+            table,
+            infos,
+            matchers: automata
+                .matchers
+                .iter()
+                .map(|matcher| format!("{:?}", matcher))
+                .collect(),
+        }
+    }
+
+    /// Dump of the production terminal event automata
+    pub fn event_automata_dump() -> Dump {
+        dump(&TTY_EVENT_AUTOMATA)
+    }
+
+    /// Dump of the production terminal command automata
+    pub fn command_automata_dump() -> Dump {
+        dump(&TTY_COMMAND_AUTOMATA)
+    }
+
+    /// Dump of the UTF-8 automata used by `Utf8Decoder`
+    pub fn utf8_automata_dump() -> (usize, usize, Vec<Option<usize>>, Vec<(bool, bool)>) {
+        UTF8DFA.verif_raw()
+    }
+}
